@@ -23,8 +23,8 @@ RULES = {
              'the map entry whenever the lookup finds one (tombstones included); a literal version is used only where the lookup found nothing',
     'C02.f': 'a successful mutation makes the version grow: the version stored by the increment for an existing key is old.version + 1 '
              '(an addition on the old entry\'s version); a plain copy of the old version is stored only under the in-conflict-marker test',
-    'C02.h': 'the in-conflict marker cannot be forged: a version that a client supplies (a non-constant `version` of a Request::Set built '
-             'by a parser) is compared with a lower bound, and the branch taken for the marker value refuses — the marker version makes '
+    'C02.h': 'the in-conflict marker cannot be forged: a version that a client supplies (a non-constant `version` of a Request::Set or a '
+             'Request::Resolve built by a parser) is compared with a lower bound, and the branch taken for the marker value refuses — the marker version makes '
              'the store skip its comparison (allow_save_version)',
     'C02.g': 'the store refuses on the version it WOULD store: the branch that builds VersionError is controlled by a comparison between the '
              'result of next_version and the stored version (directly, or in a helper that receives that result) — a test on the presented '
@@ -685,7 +685,7 @@ def marker_unforgeable(ck, m):
                 continue
             for s in bl['s']:
                 if not (s['k'] == 'assign' and s['r']['k'] == 'agg' and s['r'].get('adt', '').endswith('bo::Request')
-                        and s['r'].get('variant') == 'Set' and 'version' in s['r'].get('fields', [])):
+                        and s['r'].get('variant') in ('Set', 'Resolve') and 'version' in s['r'].get('fields', [])):
                     continue
                 o = s['r']['ops'][s['r']['fields'].index('version')]
                 roots = set(origins(b, o))
@@ -718,11 +718,11 @@ def marker_unforgeable(ck, m):
                                     refused.add(mk)
                 missing = sorted(marks - refused)
                 ck.ob('C02.h', short(b.id), 'client-version-excludes-the-marker', not missing,
-                      'a client version equal to the marker %s is refused by the parser before a Set request is built' % sorted(marks) if not missing else
-                      'the version of the Set request built here comes from the command text and can be %s, the in-conflict-resolution marker: the '
+                      'a client version equal to the marker %s is refused by the parser before the Set / Resolve request is built' % sorted(marks) if not missing else
+                      'the version of the Set / Resolve request built here comes from the command text and can be %s, the in-conflict-resolution marker: the '
                       'store saves such a change as it comes (no comparison), so `set-safe k %s v` succeeds against any stored version, the '
                       'version falls to %s and every later write of the key is refused' % (missing, missing[0], missing[0]), b.loc(X))
-    ck.floor('C02.h', n, 1, 'Set requests built with a version taken from the command text')
+    ck.floor('C02.h', n, 2, 'Set / Resolve requests built with a version taken from the command text')
 
 
 def version_error_sites(m, sbod):
